@@ -66,7 +66,8 @@ def extra(rng):
 
 if __name__ == "__main__":
     res = speccheck.run(
-        "C06", SPEC, {"security": False, "params": True, "multipkg": True}, 30, 250,
+        "C06", SPEC, {"security": False, "params": True, "multipkg": True, "nested_pkg": True, "reserved_headers": True,
+                     "dive_validators": True}, 30, 250,
         rule="seeded abstract projects whose methods vary parameter lists (path/query/header/form/body, wire "
              "aliases, pointer-ness, validator strings, query slices, context parameter), return shapes "
              "(error | (T, error) | (*T, error)), @Response and @ErrorResponse (duplicates included), run "
